@@ -44,6 +44,9 @@ func TestSim(t *testing.T) {
 	go func() {
 		last, since := int64(-1), time.Now()
 		limit := 90 * time.Second
+		if v, err := strconv.Atoi(os.Getenv("VERIF_WATCHDOG_S")); err == nil && v > 0 {
+			limit = time.Duration(v) * time.Second
+		}
 		for {
 			time.Sleep(time.Second)
 			if p := Progress.Load(); p != last {
@@ -61,6 +64,17 @@ func TestSim(t *testing.T) {
 						}
 						stuck = append(stuck, g)
 					}
+				}
+				if hv := HangVerdict(string(buf[:n])); hv != nil {
+					if p := os.Getenv("VERIF_OUT"); p != "" {
+						if f, err := os.OpenFile(p, os.O_CREATE|os.O_WRONLY|os.O_APPEND, 0o644); err == nil {
+							b, _ := json.Marshal(hv)
+							f.Write(append(b, '\n'))
+							f.Close()
+						}
+					}
+					fmt.Fprintf(os.Stderr, "HANG-VERDICT property=%s seed=%d: %s\n", prop, hv.Seed, hv.Violations[0].Class)
+					os.Exit(3)
 				}
 				fmt.Fprintf(os.Stderr, "HARNESS-HANG property=%s seed=%d: no scheduler step for %v; parked: %s\ngoroutines not parked:\n%s\n", prop, curSeed.Load(), limit, CurrentParked(), strings.Join(stuck, "\n\n"))
 				os.Exit(2)
